@@ -32,6 +32,7 @@ package recorder
 //@ ghost field Recorder.stopOK bool
 
 //@ iface (r Recorder) StartRecording(backgroundFrame, tempThresh) (err)
+//@   requires [C12] ref(r) != 0
 //@   requires [C12] !r.open
 //@   modifies r.open, r.inFile, r.wfault, r.starts, r.startOK, r.bg, r.thresh
 //@   ensures (err == nil) == old(r.startOK)
@@ -40,6 +41,7 @@ package recorder
 
 //@ iface (r Recorder) WriteFrame(frame) (err)
 //@   ghostparams seq
+//@   requires [C12] ref(r) != 0
 //@   requires [C12] r.open
 //@   modifies r.next, r.first, r.inFile, r.writes, r.wfault
 //@   ensures r.next == seq + 1 && r.inFile == old(r.inFile) + 1 && r.writes == old(r.writes) + 1
@@ -47,11 +49,13 @@ package recorder
 //@   ensures r.wfault == (old(r.wfault) || err != nil)
 
 //@ iface (r Recorder) StopRecording() (err)
+//@   requires [C12] ref(r) != 0
 //@   modifies r.open, r.stops, r.stopOK
 //@   ensures !r.open && r.stops == old(r.stops) + (old(r.open) ? 1 : 0)
 //@   ensures (err == nil) == old(r.stopOK)
 
 //@ iface (r Recorder) CheckCanRecord() (err)
+//@   requires [C12] ref(r) != 0
 //@   ensures (err == nil) == r.canRec
 
 //@ func (conf *RecorderConfig) validate
